@@ -464,6 +464,7 @@ func (r *c09Run) exec(op string) bool {
 	if len(w) == 0 {
 		return false
 	}
+	r.c.Crumb("history: " + strings.Join(r.ops, "; ") + "; next: " + op)
 	kind := w[0]
 	var res value.Value
 	var err error
@@ -719,6 +720,16 @@ func (r *c09Run) exec(op string) bool {
 		recv = a.h
 		run("a0[a1]", a, c09Arg{v: c09Int(w[2]), h: -1})
 		model = []string{"idx " + a.model + " " + w[2]}
+	case "til":
+		// a ~ b on two lists ("all items of a are in b"): an observer of both; no counterpart in the model (the
+		// predicate on the implementation decides: no handle may change)
+		if !need(2) {
+			return false
+		}
+		a, b := A(1), A(2)
+		recv = a.h
+		run("a0 ~ a1", a, b)
+		model = nil
 	case "mwr":
 		if !need(2) {
 			return false
@@ -1044,11 +1055,16 @@ func (r *c09Run) next(rng *rand.Rand) string {
 				continue
 			}
 			h := r.handles[k]
-			switch rng.Intn(3) {
+			switch rng.Intn(4) {
 			case 0:
 				return "first " + H(k)
 			case 1:
 				return "idx " + H(k) + " " + strconv.Itoa(rng.Intn(h.n+2)-1)
+			case 2:
+				if k2 := r.pick(rng, smallList); k2 >= 0 {
+					return "til " + H(k) + " " + H(k2)
+				}
+				return "size " + H(k)
 			default:
 				return "size " + H(k)
 			}
@@ -1334,6 +1350,9 @@ var c09Corpus = [][]string{
 	// maps
 	{"mlit a=i1,b=i2", "put h0 c i3", "put h0 c i4", "mlit d=i4", "mrg h1 h3", "mrg h2 h3", "mlit a=i5,x=i9", "rpl h0 h6", "mev h4", "mmap add:1 h0", "macc a h4", "mcmb h0 h0", "obs"},
 	{"const 7", "put h0 c i3", "const 7", "put h2 c i4", "mev h0", "obs"},
+	// ~ with a list on the left removes the items it has found from a work copy, never from the operand
+	{"lit i1,i2,i3", "lit i1,i2,i3,i4", "til h0 h1", "til h0 h1", "lit i3,i1", "til h2 h0", "app h2 i9", "til h0 h3", "obs"},
+	{"num 4", "eval h0", "num 6", "til h1 h2", "til h0 h2", "app h1 i7", "til h3 h2", "obs"},
 	// a replaced map knows only the keys of the original (the model once looked into the replacement first)
 	{"mlit -", "mlit a=i1", "rpl h0 h1", "mrg h2 h1", "put h2 a i5", "mlit a=i2,b=i3", "mlit b=i4,c=i5", "rpl h5 h6", "mlit c=i6", "mrg h7 h8", "obs"},
 	// a ListMap with spare capacity (accept): two derivations from it must not share the spare cell
@@ -1410,7 +1429,7 @@ func c09Nontrivial(r *c09Run) bool {
 	mat := false
 	for _, op := range r.ops {
 		switch strings.Fields(op)[0] {
-		case "app", "set", "rev", "ord", "ordr", "ordl", "eval", "idx", "size", "mw", "mwr", "tsa", "obs", "cmbe", "mev":
+		case "app", "set", "rev", "ord", "ordr", "ordl", "eval", "idx", "size", "mw", "mwr", "tsa", "obs", "cmbe", "mev", "til":
 			mat = true
 		}
 	}
@@ -1419,7 +1438,7 @@ func c09Nontrivial(r *c09Run) bool {
 
 func runC09(c *Ctx) {
 	log.SetOutput(io.Discard) // recovered panics of generated functions are logged by the library
-	c.rule = "histories of list/map operations (34 kinds incl. append, set, reverse, order*, +, map, accept, top, skip, eval, first, l[i], size, movingWindow*, combineN lazy/stored, groupBy*, host append on ToSlice, constants evaluated repeatedly; put, +, replace, eval, map, accept, combine, get on maps) over a pool of handles, plus a fork sweep (11 parent capacity states x 15 derivations x 2..4 sibling derivations x 4 append orders), every handle observed after every step (deep canonical walk, string(); at obs steps size() and = against a copy of its first observation) on the real code, and compared with the Lean model's abs of every handle after every step; non-trivial = distinct history with at least one branch (two derivations from the same handle) and one materialising operation"
+	c.rule = "histories of list/map operations (34 kinds incl. append, set, reverse, order*, +, map, accept, top, skip, eval, first, l[i], size, list ~ list, movingWindow*, combineN lazy/stored, groupBy*, host append on ToSlice, constants evaluated repeatedly; put, +, replace, eval, map, accept, combine, get on maps) over a pool of handles, plus a fork sweep (11 parent capacity states x 15 derivations x 2..4 sibling derivations x 4 append orders), every handle observed after every step (deep canonical walk, string(); at obs steps size() and = against a copy of its first observation) on the real code, and compared with the Lean model's abs of every handle after every step; non-trivial = distinct history with at least one branch (two derivations from the same handle) and one materialising operation"
 	c.assume = append(c.assume,
 		"closures in generated programs come from a fixed pool of pure functions; ints stay far below 2^63",
 		"VerifState (hook) is used only for the capacity-state histogram, never for a verdict",
